@@ -6,6 +6,7 @@ package main
 // (reach, condition) pairs.
 
 import (
+	"os"
 	"fmt"
 	"go/token"
 	"go/types"
@@ -56,7 +57,7 @@ type Exec struct {
 	caseHint    *caseHint
 	knownWidth  map[int]int
 	collectLocs *[]Loc
-	coverDrop   []*Term // generated quantified facts left out of reachability (cover) queries
+	loopFrames  []*loopFrameRec
 	extra       map[*Cell]Val
 }
 
@@ -85,6 +86,7 @@ type Frame struct {
 	loops    map[*ssa.BasicBlock]*loopInfo
 	escapes  map[*ssa.Alloc]bool
 	snaps       map[string]*State
+	deferCell   map[*ssa.Defer]*Cell // flags of defers that not every return passes
 	oldOverride *State
 }
 
@@ -195,6 +197,19 @@ func (e *Exec) run(fr *Frame, args []Val, st *State) (*State, []Val) {
 	order, backEdge := blockOrder(fn)
 	e.findLoops(fr, order, backEdge)
 	fr.escapes = e.eng.escapeInfo(fn)
+	for _, b := range fn.Blocks {
+		for _, ins := range b.Instrs {
+			if d, ok := ins.(*ssa.Defer); ok && b != fn.Blocks[0] && !dominatesReturns(b, fn) {
+				if fr.deferCell == nil {
+					fr.deferCell = map[*ssa.Defer]*Cell{}
+				}
+				e.cellN++
+				cell := &Cell{id: e.cellN, name: "defer.armed", typ: types.Typ[types.Bool]}
+				fr.deferCell[d] = cell
+				st.cells[cell] = e.c.False()
+			}
+		}
+	}
 
 	out := map[*ssa.BasicBlock]*State{}
 	var rets []retPoint
@@ -270,6 +285,7 @@ func (e *Exec) run(fr *Frame, args []Val, st *State) (*State, []Val) {
 			case *ssa.If, *ssa.Jump:
 				// handled by edgeState
 			default:
+				e.rangeSnapshots(fr, cur, ins2)
 				e.instr(fr, cur, ins2)
 			}
 			if isFalse(cur.reach) && e.noPrune == 0 {
@@ -510,9 +526,107 @@ func (e *Exec) enterLoop(fr *Frame, li *loopInfo, pre *State) *State {
 			li.dec0 = e.evalClauseAt(fr, *ls.Decreases, st, nil)
 		}
 	}
+	// quantified preconditions speak about the entry state and stay true: restate them here so that they get
+	// instances at this loop's indices
+	if fr.spec != nil && fr.spec == e.top && e.pure == 0 && fr.entry != nil {
+		for _, cl := range fr.spec.Requires {
+			if !strings.Contains(cl.Text, "forall") {
+				continue
+			}
+			savedW := e.witness
+			e.witness = e.witnessFor(fr, st)
+			t := e.evalClauseCall(cl, fr.params, nil, fr.entry, fr.entry)
+			e.witness = savedW
+			e.assume(st, t)
+		}
+	}
 	st.reach = c.Name(st.reach, fmt.Sprintf("loop%d", li.ordinal))
 	li.headSt = st.clone()
 	return st
+}
+
+type loopFrameRec struct {
+	q      *Term // the quantified fact as placed in the path condition
+	bv     *Term
+	body   *Term
+	newArr *Term // the array symbol introduced at the loop head
+}
+
+// instantiateLoopFrames replaces the quantified loop-frame facts in the given terms by their instances at every
+// ground index read from the havocked arrays (through stores, joins and named definitions). Fewer assumptions than
+// the quantified facts, so nothing is proved that they would not prove.
+func (e *Exec) instantiateLoopFrames(ts []*Term) ([]*Term, []*Term) {
+	if len(e.loopFrames) == 0 {
+		return ts, nil
+	}
+	c := e.c
+	out := make([]*Term, len(ts))
+	for i, t := range ts {
+		for _, lf := range e.loopFrames {
+			t = c.Subst(t, lf.q, c.True(), map[int]*Term{})
+		}
+		out[i] = t
+	}
+	byArr := map[int]*loopFrameRec{}
+	for _, lf := range e.loopFrames {
+		byArr[lf.newArr.id] = lf
+	}
+	seen := map[int]bool{}
+	done := map[[2]int]bool{}
+	var insts []*Term
+	var bases func(a *Term, acc map[int]bool, depth int)
+	bases = func(a *Term, acc map[int]bool, depth int) {
+		if depth > 64 || acc[-a.id] {
+			return
+		}
+		acc[-a.id] = true
+		switch {
+		case a.kind == kDef && a.def != nil:
+			bases(a.def, acc, depth+1)
+		case a.kind == kApp && a.op == "store":
+			bases(a.args[0], acc, depth+1)
+		case a.kind == kApp && a.op == "ite":
+			bases(a.args[1], acc, depth+1)
+			bases(a.args[2], acc, depth+1)
+		default:
+			acc[a.id] = true
+		}
+	}
+	var work []*Term
+	work = append(work, out...)
+	var visit func(t *Term)
+	visit = func(t *Term) {
+		if seen[t.id] {
+			return
+		}
+		seen[t.id] = true
+		if t.kind == kDef && t.def != nil {
+			visit(t.def)
+		}
+		for _, a := range t.args {
+			visit(a)
+		}
+		if t.kind == kApp && t.op == "select" && len(t.args) == 2 && !t.args[1].bound {
+			acc := map[int]bool{}
+			bases(t.args[0], acc, 0)
+			for id := range acc {
+				lf := byArr[id]
+				if id <= 0 || lf == nil || done[[2]int{id, t.args[1].id}] {
+					continue
+				}
+				done[[2]int{id, t.args[1].id}] = true
+				inst := c.Subst(lf.body, lf.bv, t.args[1], map[int]*Term{})
+				insts = append(insts, inst)
+				work = append(work, inst)
+			}
+		}
+	}
+	for len(work) > 0 && len(insts) < 4000 {
+		t := work[len(work)-1]
+		work = work[:len(work)-1]
+		visit(t)
+	}
+	return out, insts
 }
 
 // loopFrame: every write inside the loop is checked against the function's modifies clause where it happens, so
@@ -536,7 +650,9 @@ func (e *Exec) loopFrame(fr *Frame, st, pre *State, arr, srt string) {
 	now := c.Select(e.heapGet(st, arr, srt), r)
 	before := c.Select(e.heapGet(pre, arr, srt), r)
 	q := c.ForallPat([]*Term{r}, c.Implies(c.And(conds...), c.Eq(now, before)), now)
-	e.coverDrop = append(e.coverDrop, q)
+	// the quantified fact never reaches a solver: queries carry its instances at the indices they read
+	// (see instantiateLoopFrames); the marker term keeps its place in the path condition
+	e.loopFrames = append(e.loopFrames, &loopFrameRec{q: q, bv: r, body: c.Implies(c.And(conds...), c.Eq(now, before)), newArr: e.heapGet(st, arr, srt)})
 	e.assume(st, q)
 }
 
@@ -807,13 +923,37 @@ func (e *Exec) instr(fr *Frame, st *State, ins ssa.Instruction) {
 		}
 	case *ssa.Defer:
 		if x.Block() != fr.fn.Blocks[0] && !dominatesReturns(x.Block(), fr.fn) {
-			e.fail("conditional defer in %s", fr.fn)
+			// a defer some returns do not pass: an "armed" flag travels with the state
+			if e.inLoop(fr, x.Block()) {
+				e.fail("defer inside a loop in %s", fr.fn)
+			}
+			cell := fr.deferCell[x]
+			if cell == nil {
+				e.fail("conditional defer without a flag in %s", fr.fn)
+			}
+			st.cells[cell] = e.c.True()
 		}
 		fr.defers = append(fr.defers, x)
 	case *ssa.RunDefers:
 		for i := len(fr.defers) - 1; i >= 0; i-- {
 			d := fr.defers[i]
-			e.call(fr, st, d, &d.Call)
+			cell := fr.deferCell[d]
+			if cell == nil {
+				e.call(fr, st, d, &d.Call)
+				continue
+			}
+			armed := st.cells[cell]
+			switch {
+			case armed == nil || isFalse(armed):
+			case isTrue(armed):
+				e.call(fr, st, d, &d.Call)
+			default:
+				s1, s0 := st.clone(), st.clone()
+				e.assume(s1, armed)
+				e.assume(s0, e.c.Not(armed))
+				e.call(fr, s1, d, &d.Call)
+				*st = *e.mergeStates([]*State{s1, s0}, "defer")
+			}
 		}
 	case *ssa.Go:
 		e.note("go statement ignored (sequential semantics)")
@@ -837,6 +977,35 @@ func (e *Exec) instr(fr *Frame, st *State, ins ssa.Instruction) {
 	}
 }
 
+// rangeSnapshots: 'since if k' anchors take their snapshot before the first instruction of the condition.
+func (e *Exec) rangeSnapshots(fr *Frame, st *State, ins ssa.Instruction) {
+	if fr.spec == nil || e.pure > 0 || len(fr.spec.Asserts) == 0 || ins.Pos() == token.NoPos {
+		return
+	}
+	var pp token.Position
+	for _, a := range fr.spec.Asserts {
+		if a.SinceEnd == 0 {
+			continue
+		}
+		key := fmt.Sprintf("%s:%d", a.SinceFile, a.SinceOff)
+		if fr.snaps[key] != nil {
+			continue
+		}
+		if pp.Filename == "" {
+			pp = e.eng.fset.Position(ins.Pos())
+		}
+		if pp.Filename == a.SinceFile && a.SinceOff <= pp.Offset && pp.Offset < a.SinceEnd {
+			if fr.snaps == nil {
+				fr.snaps = map[string]*State{}
+			}
+			fr.snaps[key] = st.clone()
+			if os.Getenv("SHVC_DEBUG") != "" {
+				fmt.Fprintf(os.Stderr, "snapshot %s at %s (%s)\n", key, pp, ins)
+			}
+		}
+	}
+}
+
 // siteAsserts: contract assertions attached to a return statement (kind 0) or to a call (1 before, 2 after).
 func (e *Exec) siteAsserts(fr *Frame, st *State, pos token.Pos, kind int) {
 	if fr.spec == nil || len(fr.spec.Asserts) == 0 || e.pure > 0 || pos == token.NoPos {
@@ -846,7 +1015,7 @@ func (e *Exec) siteAsserts(fr *Frame, st *State, pos token.Pos, kind int) {
 	if kind == 1 {
 		// snapshot points for "since call k f": the state just before that call
 		for _, a := range fr.spec.Asserts {
-			if a.SinceCallee != "" && a.SinceFile == pp.Filename && a.SinceOff == pp.Offset {
+			if a.SinceCallee != "" && a.SinceEnd == 0 && a.SinceFile == pp.Filename && a.SinceOff == pp.Offset {
 				if fr.snaps == nil {
 					fr.snaps = map[string]*State{}
 				}
@@ -914,6 +1083,15 @@ func lastExtractOf(x *ssa.Extract) bool {
 		}
 	}
 	return true
+}
+
+func (e *Exec) inLoop(fr *Frame, b *ssa.BasicBlock) bool {
+	for _, li := range fr.loops {
+		if li.body[b] {
+			return true
+		}
+	}
+	return false
 }
 
 func dominatesReturns(b *ssa.BasicBlock, fn *ssa.Function) bool {
